@@ -225,6 +225,7 @@ func run(c *props.Ctx) {
 	}
 	checkBVH(c)
 	primitiveScopes(c)
+	attrScope(c)
 	c.R.Floor("KEY-1", 2)
 	c.R.Floor("ORD-3", 1)
 	c.R.Floor("CHILD-1", 7)
